@@ -121,14 +121,18 @@ func (s *Sched) MapSites() []MapSite { return s.mapSites }
 
 var epoch = time.Date(2020, 1, 1, 0, 0, 0, 0, time.UTC)
 
-// Now is a logical clock: strictly increasing within an execution, 1 ms per reading.
+// ClockStep: how far the logical clock advances per reading (default 1 ms; scenarios that want
+// tasks to straddle second boundaries use a larger step).
+var ClockStep = time.Millisecond
+
+// Now is a logical clock: strictly increasing within an execution, ClockStep per reading.
 func Now() time.Time {
 	s := Cur
 	if s == nil {
 		return time.Now()
 	}
 	s.now++
-	return epoch.Add(time.Duration(s.now) * time.Millisecond)
+	return epoch.Add(time.Duration(s.now) * ClockStep)
 }
 
 // Sleep yields and advances the logical clock.
